@@ -22,7 +22,8 @@ import objops
 import objsession as S
 from common import Ctx, Outcome
 
-DRIVERS = ["Index"]
+DRIVERS = ["Index", "Accessor"]
+TABLES = True
 RULE = ("(a) placements of a duplicated UUID enumerated over pairs of id-carrying elements of the small corpus models "
         "(same fragment / other fragment / library resource / visual fragment) x {load, load with override then save, save with both overrides}; "
         "(b) creation requests {valid, unknown attribute, wrong type hint, clashing uuid, failing nested initialisation} in "
@@ -234,7 +235,8 @@ def run(ctx: Ctx) -> Outcome:
     for key, nh, ns in plan:
         for h in range(nh):
             mon = CreateMonitor(out, ctx)
-            S.run_history(ctx, out, key, ns, [mon], weights=w, hist_id=h)
+            import accsession
+            S.run_history(ctx, out, key, ns, [mon, accsession.AccessorTie(out)], weights=w, hist_id=h)
     # model side: generate_uuid / duplicate check on synthetic loaders derived from a real scan
     model_cases(ctx, out)
     del tie
